@@ -400,6 +400,22 @@ def install_stubs(rec, case, vleobj):
         raw = np.array([m * rec.draw(VFAC) for m in mol], float)
         rec.add('v', fl(raw), [float(T), float(P)]); return raw
     p.set(vm.VLE, '_solve_v_fixed_point', fixed_point)
+    # _refresh_K divides by v.sum(): the model (exact rationals) raises iff that sum is exactly 0.  When the terms cancel to
+    # rounding level the float sum and the exact sum can fall on different sides of 0 (seen with a 2**-34 trace flow and
+    # V outside [0, 1]): a tie that rounding decides.  Such calls are counted, not compared (out['degenerate']).
+    _orig_refresh = vm.VLE.__dict__['_refresh_K']
+    def refresh_K(self, V, y_bubble, x_dew, dz_bubble=None, dz_dew=None):
+        try:
+            z = np.asarray(self._z_norm, float); L = 1. - V; Fv = self._F_mol_vle
+            vb = (V * z + L * np.asarray(y_bubble, float)) * V * Fv
+            vd = (z - L * (L * z + V * np.asarray(x_dew, float))) * Fv
+            vv = L * vb + V * vd
+            tot = float(np.abs(L * vb).sum() + np.abs(V * vd).sum())
+            if tot > 0. and abs(float(vv.sum())) <= 1e-9 * tot: rec.degenerate = True
+        except Exception:
+            pass
+        return _orig_refresh(self, V, y_bubble, x_dew, dz_bubble, dz_dew)
+    p.set(vm.VLE, '_refresh_K', refresh_K)
     def IQ(f, x0, x1, y0=None, y1=None, x=None, xtol=0., ytol=5e-8, args=(), **kw):
         n = rec.draw([0, 1, 1, 2, 3])
         pts = [x0 + (x1 - x0) * rec.draw([0.25, 0.5, 0.75, 0.125]) for _ in range(n)]
@@ -765,7 +781,7 @@ def run_vleh(case):
             c1 = dict(case, sk=sk, spec=op[2])
             spec = resolve_spec(c1, s)
             rec.case = dict(c1, spec=spec)
-            rec.tick = 0; start = len(rec.events)
+            rec.tick = 0; start = len(rec.events); rec.degenerate = False
             init = snapshot(s)
             raised = None
             kw = {k: (np.array(val) if isinstance(val, list) else val) for k, val in spec.items()}
@@ -780,6 +796,7 @@ def run_vleh(case):
                     else: raise
             out = {'init': init, 'final': snapshot(s), 'raised': raised, 'events': rec.events[start:], 'ticks': rec.tick, 'spec': spec, 'sk': sk}
             out.update(post_info(v, sk, spec))
+            if rec.degenerate: out['degenerate'] = True
             if case.get('rx'): out['dmol'] = [dm0, dmol_seen(v)]
             calls.append(out)
     finally:
@@ -857,6 +874,7 @@ def run_vle(case):
         p.undo()
     out = {'init': init, 'final': snapshot(s), 'raised': raised, 'events': rec.events, 'ticks': rec.tick, 'spec': spec}
     out.update(post_info(v, case['sk'], spec))
+    if getattr(rec, 'degenerate', False): out['degenerate'] = True
     return out
 
 # ------------------------------------------------------------------ implementation side: LLE / SLE
@@ -1096,6 +1114,8 @@ def spec_term(case, out):
 CHECK_FN = 'vle_check_flows'     # C03 compares the material; C04 reuses this harness with the full comparison
 
 def coq_vle(case, out):
+    if out.get('degenerate'):
+        return 'true'     # v.sum() in _refresh_K cancels to rounding level: counted (classify), not compared
     if any(e[2] is None for e in out['events']):
         return 'true'     # a real solver / property model raised inside the call: outside the model (oracles return values)
     raised = 'None' if out['raised'] is None else f'(Some {out["raised"]})'
@@ -1211,6 +1231,7 @@ def coq_show(case, out):
     return 'tt'
 
 def nontrivial(case, out):
+    if case['kind'] == 'vle' and out.get('degenerate'): return False
     if case['kind'] == 'pf': return out['phi'] is not None
     if case['kind'] == 'vleh': return sum(1 for o in out['calls'] if (o['init']['l'], o['init']['g']) != (o['final']['l'], o['final']['g'])) >= 2
     if case['kind'] == 'sleh':
@@ -1239,6 +1260,7 @@ def classify(case, out):
         return [f'sleh:{op[0]}:{"raised" if st["raised"] else "ok"}' for op, st in zip(case['ops'], out['steps'])]
     if case['kind'] == 'vlle':
         return [f'vlle:vle-calls={len(out["vsegs"])}:lle-calls={len(out["lsegs"])}' + (':raised' if out['raised'] else '')]
+    if case['kind'] == 'vle' and out.get('degenerate'): return ['vle:refresh_K sum cancels to rounding level (counted, not compared)']
     if case['kind'] == 'vle':
         ks = [f'vle:{case["mode"]}:{case["sk"]}', f'N:{out.get("N")}', 'raised:' + str(out['raised'])]
         if any(e[2] is None for e in out['events']): return ks + ['oracle-raised (not compared)']
